@@ -46,8 +46,8 @@ structure FloatOps (F : Type) where
   lossRate : List Nat → F
   /-- `(1.0 / p).clamp(0.0, u32::MAX as f64).round() as u32` -/
   lossResetLen : F → Nat
-  /-- `(send_rate as f64 * dt.as_secs_f64()).round() as isize`, dt in nanoseconds -/
-  fillBytes : Nat → Nat → Int
+  /-- `let x = send_rate as f64 * dt.as_secs_f64() + frac; (x.floor() as isize, x - x.floor())`, dt in nanoseconds -/
+  fillBytes : Nat → Nat → F → Int × F
   /-- `(send_rate as f64 * rtt_s.unwrap_or(0.0)).round() as isize` -/
   fillMax : Nat → Option F → Int
 
@@ -228,7 +228,7 @@ def nofeedbackExpired (ops : FloatOps F) (s : State F) (now : Nat) : R (State F)
           let cur := min tcp (satMul2 recv)
           let newLimit := max (cur / 2) MINIMUM_RATE
           .ok { s with recvSet := [{ value := newLimit / 2, ts := now, isInitial := false }],
-                       sendRate := min tcp newLimit }
+                       sendRate := min (min tcp newLimit) s.maxSendRate }
     | .awaitSend => .error .panic
   match r with
   | .error t => .error t
